@@ -40,14 +40,17 @@ Definition run_C02f (v : val) : val :=
 Definition strip_file (out : val) : val :=
   match out with L [a; b; c; _; _] => L [a; b; c] | _ => out end.
 
-(** the property on an implementation output: as [check_C02], about the table the file holds; a file the
-    model rejects or whose ids are not 0..n-1 is outside the property (any disagreement there is a matter of
-    the correspondence) *)
+(** the property on an implementation output: as [check_C02], about the table the file holds.  Hand-made files
+    are not what [save] writes: whether the real loader takes one is a matter of the correspondence ([agree_C02f]),
+    not of the property — so a file the model rejects or whose ids are not 0..n-1, and a clean constructor error
+    [()] on a file the model accepts, are outside the property; once the real tokenizer WAS built from a file the
+    model reads as a table, the property is demanded of it (a panic is a failure) *)
+Definition is_ctor_error (out : val) : bool := match out with L [] => true | _ => false end.
 Definition check_C02f (v out : val) : bool :=
   match in_file v with
   | None => check_C02 v (strip_file out)
   | Some fb => match load_table fb with
-               | Loaded tbl => check_C02 (with_table v tbl) (strip_file out)
+               | Loaded tbl => is_ctor_error out || check_C02 (with_table v tbl) (strip_file out)
                | _ => true
                end
   end.
